@@ -7,7 +7,8 @@ CLAIMED = {
     "C15": dict(
         engine="xmltok", design_ref="6.15",
         technique="Lean 4 proof (reader primitives monotone/resumable, step_mono + step_resume + invariant + simulation up "
-                  "to a dead current_char, composed over runs and feed sessions; side condition on the fast-path sets by "
+                  "to a dead current_char, composed over runs and feed sessions; option simulation equal-up-to-parse-errors through "
+                  "every reader, the table, the character-reference machine, feed and end(); side condition on the fast-path sets by "
                   "decide against the regenerated small_char_set! table) + model/code correspondence on an exhaustive "
                   "state × character-class × suffix cover; code-vs-code oracles for options, CR/NUL/BOM and trees",
         text="For the model of xml5ever's tokenizer (all 50 states startable through initial_state, char-ref "
@@ -17,8 +18,10 @@ CLAIMED = {
              "U+FEFF is dropped only as the first character of the stream (C15_bom_once), that every small_char_set! "
              "contains CR, NUL and its state's special characters (C15_sets_cover, against the table regenerated from "
              "the source each run) and that outside the set the fast path equals the slow path (C15_fast_eq_slow). "
-             "Partial: independence of exact_errors at run level, 'no raw CR/NUL reaches the sink' as a global invariant, "
-             "the fuel bound of run and the tree-builder level are not theorems; they are checked on the real code by "
+             "exact_errors never changes the token stream: for any two option values, any machine and any chunking the "
+             "sessions and end() deliver the same tokens once parse errors are erased (C15_exact_errors_tokens). The loop's "
+             "fuel bound and totality of end() are proved under C04 (C04_xml_parse_total). Partial: 'no raw CR/NUL reaches "
+             "the sink' as a global invariant and the tree-builder level are not theorems; they are checked on the real code by "
              "code-vs-code oracles (every 2-partition / singletons / random partitions; exact_errors on/off modulo error "
              "tokens; CR and CRLF spellings vs LF; NUL vs U+FFFD; discard_bom on/off; tokens and RcDom trees).",
         note="Trusted: Lean kernel; the hand-written model + the xmltok correspondence (token stream incl. error messages on "
